@@ -79,6 +79,23 @@ fn same_bits(a: &IterEvent, b: &IterEvent) -> bool {
         && a.z.iter().zip(&b.z).all(|(p, q)| p.to_bits() == q.to_bits())
 }
 
+/// the point a run ends at is one of its own iterates: the last one, or - after the roll-back that an
+/// insufficient-progress stop performs - the one before it, bit for bit (homogenisation scalars included)
+fn final_is_an_iterate(res: &problem::SolveResult) -> Option<serde_json::Value> {
+    let fe = res.final_event()?;
+    let its: Vec<&IterEvent> = res.iter_events().collect();
+    if its.is_empty() {
+        return None;
+    }
+    let lo = its.len().saturating_sub(2);
+    if its[lo..].iter().any(|e| same_bits(e, fe)) {
+        return None;
+    }
+    let last = its[its.len() - 1];
+    Some(json!({"what": "the final point is neither the last nor the last-but-one iterate of the run", "status": status_name(res.status), "final_tau": fe.τ, "final_kappa": fe.κ,
+                "last_iterate_tau": last.τ, "last_iterate_kappa": last.κ, "previous_iterate_tau": its[lo].τ, "previous_iterate_kappa": its[lo].κ}))
+}
+
 fn ulp_close(a: f64, b: f64, ulps: f64) -> bool {
     if a == b || (a.is_nan() && b.is_nan()) {
         return true;
@@ -254,6 +271,9 @@ pub fn run(ctx: &mut Ctx) {
             }
             prev_idx = Some(e.iterations);
         }
+        if let Some(v) = final_is_an_iterate(&long) {
+            ctx.violation("final_point_is_no_iterate", "final_point_is_no_iterate", wl, case, case_json(&p, &st, &long, v));
+        }
         if switches > 0 {
             ctx.bump("runs_with_scaling_strategy_switch");
         }
@@ -423,6 +443,14 @@ pub fn run(ctx: &mut Ctx) {
             if k > 0 && e.iterations == its[k - 1].iterations + 1 && !same_bits(e, its[k - 1]) && !(e.step_length > 0.0 && e.step_length <= 1.0) {
                 ctx.violation("step_length_out_of_range", "step_length_out_of_range", wl, case, case_json(&p, &st, &r, json!({"iteration": e.iterations, "alpha": e.step_length})));
                 break;
+            }
+        }
+        if let Some(v) = final_is_an_iterate(&r) {
+            ctx.violation("final_point_is_no_iterate", "final_point_is_no_iterate", wl, case, case_json(&p, &st, &r, v));
+        }
+        if let (Some(fe), Some(last)) = (r.final_event(), its.last()) {
+            if !same_bits(fe, last) {
+                ctx.bump("floor_runs_ending_with_a_roll_back");
             }
         }
         if smallest < 1e-16 {
